@@ -47,6 +47,14 @@ REPEATS = [
     "{ RdV = (PuV ? RsV : RtV) + (PuV ? RsV : RtV); }", "{ ; ; { } { ; } RdV = RsV; ; }",
     "{ for (i = 0; i < 2; i++) { cancel_slot; } for (j = 0; j < 2; j++) { cancel_slot; } }",
     "{ RdV = (PuV ? ({ int32_t q = RsV; q; }) : RtV) + (PvV ? RtV : ({ int32_t r = RsV; r; })); }",
+    # BOTH arms of one ?: are statement-expressions (declaration, register / predicate assignment, store as the arm's statement)
+    "{ RdV = (PuV ? ({ int32_t q = RsV; q; }) : ({ int32_t r = RtV; r; })); }",
+    "{ int32_t v = 1; RdV = ((RsV > 0) ? ({ RxV = RtV; 5; }) : ({ ReV = RsV; 7; })); }",
+    "{ int32_t v = 1; RdV = (PuV ? ({ v = RtV; v; }) : ({ P0 = RsV; 7; })); }",
+    "{ EA = RsV; RdV = (PuV ? ({ RxV = RtV; 5; }) : ({ mem_store_u32(EA, RtV); 7; })); }",
+    # value-producing side effects inside a loop condition
+    "{ for (i = 0; i < clz32(RsV); i++) { RxV = RxV + 1; } }", "{ uint32_t n = RsV & 7; for (i = 0; i < n--; i++) { RxV = RxV + 1; } }",
+    "{ for (i = 0; i < 2; i++) { for (j = 0; j < clz32(RsV); j++) { RxV = RxV + 1; } } }",
 ]
 
 
@@ -138,6 +146,50 @@ REC_CTX = ["{ int32_t a = 1; int32_t b = 2; EA = ((a + %s) + b); }", "{ int32_t 
 REC_WRITE = ["{ int32_t a = 1; RdV = a; a = (a + RdV) + a; }", "{ int32_t a = 1; RxV = (a + RxV) + a; }", "{ int32_t a = 1; PdV = a; }",
              "{ int32_t a = 1; JUMP(a); }", "{ int32_t a = 1; cancel_slot; a = a + 1; }", "{ int32_t a = 1; a = a + 1; }",
              "{ int32_t a = 1; if (a) { STORE_SLOT_CANCELLED(pkt, slot); } }", "{ int32_t a = 1; EA = a; a = ((int32_t)mem_load_s32(EA)); }"]
+
+
+def alias_spellings(viol, seed_) -> int:
+    """One compiler asked for the same instruction under every spelling `transform_insn_name` maps to it (dep_X, IMPORTED_X,
+    X_undocumented, undocumented_X, SA2_tfrsi): every answer is the record of X (same name, same getters), and over everything
+    the compiler has buffered (`compiled_insns`) a getter name belongs to exactly one instruction."""
+    import random as _r
+    beh = rc.load_behaviours()
+    rng = _r.Random(seed_ * 53 + 11)
+    comp = sorted(n for n, b in beh.items() if len(b) > 1)
+    plain = sorted(n for n, b in beh.items() if len(b) == 1 and len(b[0]) < 200 and not n.startswith("V6_"))
+    names = ["A2_tfrsi"] + rng.sample(plain, 4) + rng.sample(comp, 2)
+    parsed = rc.parse_cached({n: beh[n] for n in names})
+    c = rc.compiler(textcheck.FORMATS[0], fresh=True)
+    type(c).compiled_insns = dict()
+    n_req = 0
+    for nm in names:
+        sp = [nm, "dep_" + nm, "IMPORTED_" + nm, nm + "_undocumented", "undocumented_" + nm] + (["SA2_tfrsi"] if nm == "A2_tfrsi" else [])
+        rng.shuffle(sp)
+        first = None
+        for s_ in sp:
+            try:
+                with rc.quiet():
+                    ri = c.transform_insn(s_, parsed[nm])
+            except Exception as e:
+                viol.append({"what": [f"transform_insn({s_!r}) raises {type(getattr(e, 'orig_exc', e)).__name__} although {nm} compiles"], "scope": "alias-spelling", "ident": s_})
+                continue
+            n_req += 1
+            rec = (ri.name, list(ri.getter_rzil["name"]), list(ri.getter_rzil["fcn_decl"]), list(ri.rzil))
+            if first is None:
+                first = rec
+            if ri.name != nm or rec[1:3] != first[1:3]:
+                viol.append({"what": [f"asked for {s_!r}: record named {ri.name!r} with getters {rec[1]}, the record of {nm!r} has {first[1]}"], "scope": "alias-spelling", "ident": s_})
+    owners = {}
+    for key, ri in c.compiled_insns.items():
+        for g in ri.getter_rzil["name"]:
+            owners.setdefault(g, []).append(key)
+    dup = {g: ks for g, ks in owners.items() if len(ks) > 1}
+    if dup:
+        g, ks = sorted(dup.items())[0]
+        viol.append({"what": [f"getter names are not unique across the instructions the compiler has buffered: {g} belongs to {ks} ({len(dup)} such names)"],
+                     "scope": "alias-spelling", "ident": g,
+                     "reproduce": f"one Compiler: transform_insn under each of the spellings {ks}; then inspect Compiler.compiled_insns"})
+    return n_req
 
 
 def records_of_programs(gen_srcs, viol) -> int:
@@ -519,6 +571,7 @@ def run_prop(prop: str, tier: str, replay=None) -> int:
     api_subs = 0
     if prop == "C11":
         rec_checked += records_of_programs([it["src"] for it in items if it["status"] == "ok"][:60], viol)
+        rec_checked += alias_spellings(viol, seed())
     inl = 0
     if prop in ("C10", "C11", "C12"):
         api_subs = api_sub_routines(viol, prop)
